@@ -292,7 +292,7 @@ impl Model for M {
 
 fn model(tier: &str) -> (M, BfsCfg) {
   let t = tier == "thorough";
-  (M { nparts: 2 }, BfsCfg { max_depth: if t { 7 } else { 5 }, threads: 16, wall_cap_s: if t { 2400.0 } else { 55.0 }, state_cap: 20_000_000, merge: true })
+  (M { nparts: 2 }, BfsCfg { max_depth: if t { 8 } else { 5 }, threads: 16, wall_cap_s: if t { 2400.0 } else { 55.0 }, state_cap: 20_000_000, merge: true })
 }
 
 pub fn replay(doc: &serde_json::Value) -> i32 {
